@@ -287,6 +287,8 @@ def decide(pid, prop, tier, seed, results, extra, t0, args):
         printed.add(key)
         print(f"KNOWN-FINDING: property={pid} {f['id']}: {f['text']}")
     seen_names = set()
+    # violations that come with a failing input replayed on the real code are reported first
+    real_violations.sort(key=lambda v: v.get("how") == "no-failing-input-found")
     for v in real_violations:
         if v["obligation"] in seen_names:
             continue
